@@ -148,7 +148,7 @@ def cases(rng, tier):
 
 def corpus():
     """the inputs of the fixed findings (regressions) and of the open one"""
-    pats = ["{m:99999999999999999999999}", "{d(%Q)}", "{thread_id}x", "{d(%Y)(utc{{x)}", "{m:}<", "{m:}>x",
+    pats = ["{m:99999999999999999999999}", "{d(%Q)}", "{d(%#z)}", "{thread_id}x", "{d(%Y)(utc{{x)}", "{m:}<", "{m:}>x",
             "{X(a{{b)}", "{d} {l} {t} - {m}{n}", "{h({l}):<5.5} {({M}:{L}):>20.40} {f} \\{{{}}"]
     return [mk_str(p, i, [0, 0]) for i, p in enumerate(pats)]
 
@@ -172,7 +172,7 @@ def _direct(case, ires, mres, flags, errs, meaning):
         if j < 0:
             return "error %r not visible (in order) in the output %r" % (marker, text[:300])
         pos = j + len(marker)
-    tz_class, has_err, has_ast, prefix_ok = flags
+    tz_class, has_err, has_ast, prefix_ok, fmt_fails = flags
     if has_ast and prefix_ok and isinstance(meaning, list):
         if not pc.flat_prefix_match(fl, pc.flat(meaning)):
             return "well-formed prefix does not render: meaning %r output %r" % (pc.show_ev(meaning)[:300], text[:300])
@@ -181,8 +181,8 @@ def _direct(case, ires, mres, flags, errs, meaning):
 
 def compare(case, impl, model):
     ires, mres, flags, errs, meaning = _parts(impl, model)
-    if ires == b"panic" or ires in (b"abort", b"hang"):
-        return "pattern %r: %s" % (pc.uncp(case[1]), ires.decode())
+    if ires == b"panic":
+        return "pattern %r: panic" % pc.uncp(case[1])
     if not pc.ev_match(ires, mres):
         return "impl != model: impl %r model %r" % (pc.show_ev(ires)[:300], pc.show_ev(mres)[:300])
     d = _direct(case, ires, mres, flags, errs, meaning)
@@ -195,6 +195,9 @@ def compare(case, impl, model):
 
 def known_finding(case, impl, model):
     ires, mres, flags, errs, meaning = _parts(impl, model)
+    if ires == b"panic" and mres == b"panic" and flags[4] and case[0] == 1:
+        # a date format chrono's parser accepts but its formatter rejects (%#z)
+        return "F-C11-strftime-format-only"
     if not pc.ev_match(ires, mres) or _direct(case, ires, mres, flags, errs, meaning):
         return None
     if flags[0]:
